@@ -83,10 +83,35 @@ func c02Numbers(c *Ctx, r *rng.R, i int) {
 		if r.Chance(15) {
 			b, cb = a, ca
 		}
+		if r.Chance(22) {
+			// neighbours: two numbers closer together than a float64 can tell, or beyond its range
+			pairs := [][2]string{{"9007199254740992", "9007199254740993"}, {"9223372036854775806", "9223372036854775807"}, {"-9007199254740993", "-9007199254740992"},
+				{"0.1234567890123456789012", "0.1234567890123456789013"}, {"1e400", "1e401"}, {"1e400", "1.0000000000000000000001e400"}, {"-1e400", "-1e401"},
+				{"123456789012345678901234567890", "123456789012345678901234567891"}, {"18446744073709551615", "18446744073709551616"}}
+			pr := pairs[r.Intn(len(pairs))]
+			a, b = cty.MustParseNumberVal(pr[0]), cty.MustParseNumberVal(pr[1])
+			ca, cb = "neighbour", "neighbour"
+			switch r.Intn(4) {
+			case 0:
+				a, b = b, a
+			case 1:
+				if r.Bool() {
+					b = cty.PositiveInfinity
+				} else {
+					b = cty.NegativeInfinity
+				}
+				cb = "inf"
+			}
+		} else if r.Chance(10) && isFiniteNum(a) {
+			b, cb = a.Add(cty.NumberIntVal(int64(1-2*r.Intn(2)))), ca+"+-1"
+		}
 	}
 	args := []cty.Value{a, b}
 	cls := "num/" + ca + "," + cb
 	for _, op := range []string{"OAdd", "OSub", "OMul", "ODiv", "OMod", "OLt", "OGt", "OLe", "OGe", "OEq", "ONe"} {
+		if ca == "neighbour" && (op == "OMul" || op == "ODiv" || op == "OMod") {
+			continue // (the neighbour pairs are about order and equality; products of 400-digit numbers only cost model time)
+		}
 		ret, p := c.addOp(cls, op, args, true)
 		c.Count("oracle_evals")
 		desc := map[string]interface{}{"op": op, "a": cq.Show(a), "b": cq.Show(b)}
@@ -220,7 +245,7 @@ func c02BigFloat(c *Ctx, r *rng.R) {
 	if len(s) < 700 {
 		c.Add("bigfloat/parse", fmt.Sprintf("K_bfparse %s %s", cq.Str(s), obs), map[string]string{"text": s}, true)
 	}
-	if err == nil && s == tf && !f.IsInf() {
+	if err == nil && s == tf && !f.IsInf() && !hasInexactNumberText(v) { // (the shortest text of a low-precision number can denote another number: KF-C15-1, not an arithmetic matter)
 		// C15 leg: parse(text_f(x)) is RawEquals to x
 		c.Count("oracle_evals")
 		if !pv.RawEquals(v) {
@@ -252,6 +277,32 @@ func c02Collections(c *Ctx, r *rng.R) {
 		cfg.NullPct = 15
 	}
 	v := gv.Gen(r, t, cfg, 2)
+	if r.Chance(8) {
+		// a set whose distinct members share a hash bucket (numbers are hashed through ten significant digits)
+		n := cty.MustParseNumberVal
+		groups := [][]cty.Value{{n("9223372036854775806"), n("9223372036854775807")}, {n("12345678901"), n("12345678902"), n("12345678903"), n("5")},
+			{n("1.00000000001"), n("1.00000000002")}, {n("1e30"), cty.MustParseNumberVal("1000000000000000000000000000001")}}
+		g := groups[r.Intn(len(groups))]
+		switch r.Intn(3) {
+		case 0:
+			v = cty.SetVal(g)
+			t = &gt.T{K: gt.Set, Elem: gt.P(gt.Num)}
+		case 1:
+			var ts []cty.Value
+			for _, x := range g {
+				ts = append(ts, cty.TupleVal([]cty.Value{x, cty.StringVal("t")}))
+			}
+			v = cty.SetVal(ts)
+			t = &gt.T{K: gt.Set, Elem: &gt.T{K: gt.Tuple, Elems: []*gt.T{gt.P(gt.Num), gt.P(gt.Str)}}}
+		default:
+			var ls []cty.Value
+			for _, x := range g {
+				ls = append(ls, cty.ListVal([]cty.Value{x}))
+			}
+			v = cty.SetVal(ls)
+			t = &gt.T{K: gt.Set, Elem: &gt.T{K: gt.List, Elem: gt.P(gt.Num)}}
+		}
+	}
 	ty := v.Type()
 	cls := "coll/" + []string{"dyn", "bool", "num", "str", "list", "set", "map", "tuple", "obj", "cap"}[t.K]
 	desc := map[string]interface{}{"v": cq.Show(v)}
